@@ -1363,6 +1363,25 @@ func (c *trCtx) sliceAliasRegister(call *ast.CallExpr, tf *trFunc, recv ast.Expr
 		}
 		return true
 	})
+	// the alias is used as the base of a selection only (x.f, x.M(…)): returned, stored or passed on it would be a third name
+	{
+		lo := c.info().Defs[lid]
+		var stack []ast.Node
+		ast.Inspect(c.fn.decl.Body, func(n ast.Node) bool {
+			if n == nil {
+				stack = stack[:len(stack)-1]
+				return true
+			}
+			stack = append(stack, n)
+			if id, ok := n.(*ast.Ident); ok && c.info().Uses[id] == lo {
+				sel, isSel := stack[len(stack)-2].(*ast.SelectorExpr)
+				if !isSel || sel.X != id {
+					trFail(id.Pos(), "%s points into %s.%s: it may only be used as x.f or x.M(…) (returned, stored or passed on it would be another name of the element)", lid.Name, rid.Name, sa.field)
+				}
+			}
+			return true
+		})
+	}
 	return func() trLines {
 		lo := c.info().Defs[lid]
 		key := c.fresh("key")
